@@ -680,7 +680,15 @@ func (s *Server) netServe() error {
 				rdbuf := bytes.NewBuffer(packet)
 				pr.rd = rdbuf
 				pr.wr = client
-				msgs, err := pr.ReadMessages()
+				msgs, err := func() (msgs []*Message, err error) {
+					defer func() {
+						// malformed input must never take the server down
+						if v := recover(); v != nil {
+							msgs, err = nil, fmt.Errorf("Protocol error: invalid input (%v)", v)
+						}
+					}()
+					return pr.ReadMessages()
+				}()
 				for _, msg := range msgs {
 					// Just closing connection if we have deprecated HTTP or WS connection,
 					// And --http-transport = false
@@ -1869,7 +1877,7 @@ reading:
 			args = append(args, string(line))
 			break
 		}
-		if line[0] == '"' && line[len(line)-1] == '"' {
+		if len(line) > 1 && line[0] == '"' && line[len(line)-1] == '"' {
 			if len(args) > 0 &&
 				strings.ToLower(args[0]) == "set" &&
 				strings.ToLower(args[len(args)-1]) == "string" {
